@@ -30,7 +30,8 @@ theorem C20_nilfs_pure : ∀ i ∈ Generated.nilfsImports,
 /-- mirror unpacks into nilfs only -/
 theorem C20_mirror_nilfs : Generated.mirrorFs = ["nilFS.New()"] := by decide
 
-/-- warehouses are opened for reading with `O_RDONLY` -/
-theorem C20_reader_readonly : Generated.kvfsReaderFlags = ["os.O_RDONLY"] := by decide
+/-- warehouses are opened for reading with `O_RDONLY` (non-blocking since `fix:` 90614d8, so that a fifo at the address
+    cannot hold the fetch; no access-mode or creation bit) -/
+theorem C20_reader_readonly : Generated.kvfsReaderFlags = ["os.O_RDONLY | syscall.O_NONBLOCK"] := by decide
 
 end Rio
